@@ -459,4 +459,57 @@ def run : Spec → List Op → Spec × List Out
 
 end Spec
 
+/-! ## Vocabulary of the corollaries (`close_restores`, `global_survives`) -/
+
+/-- The value of a target: a variable's value, a command's meaning, the current font. -/
+inductive TVal where
+  | v (o : Option Val)
+  | c (o : Option Cmd)
+  | f (n : Nat)
+  deriving DecidableEq, Repr
+
+/-- Value of a target in the VM (the *meaning* of a command name, not what an alias points at). -/
+def valOf (m : VMState) : Target → TVal
+  | .var x => .v (alookup m.vars x)
+  | .cmd t => .c (getCmd m t)
+  | .font => .f m.font
+
+/-- Value of a target in an environment. -/
+def Env.valOf (e : Env) : Target → TVal
+  | .var x => .v (e.var x)
+  | .cmd t => .c (Spec.getCmd e t)
+  | .font => .f e.font
+
+/-- Well-bracketed programs: every `}` closes a `{` of the same program. -/
+inductive Bal : List Op → Prop where
+  | nil : Bal []
+  | assign (pre : Nat) (v : Var) (x : Val) {l : List Op} : Bal l → Bal (.assign pre v x :: l)
+  | define (pre : Nat) (t : CTarget) (d : Def) {l : List Op} : Bal l → Bal (.define pre t d :: l)
+  | selectFont (pre f : Nat) {l : List Op} : Bal l → Bal (.selectFont pre f :: l)
+  | read (t : Target) {l : List Op} : Bal l → Bal (.read t :: l)
+  | group {a b : List Op} : Bal a → Bal b → Bal (.beginGroup :: (a ++ .endGroup :: b))
+
+namespace Spec
+
+/-- The target an operation assigns **globally** in state `s` (by TeX's rule: its own `\global`
+prefix and the current `\globaldefs`; `\gdef` always), if any. -/
+def globalTarget (s : Spec) : Op → Option Target
+  | .assign pre v _ => match effScope s.globalDefs pre with | .glob => some (.var v) | .loc => none
+  | .selectFont pre _ => match effScope s.globalDefs pre with | .glob => some .font | .loc => none
+  | .define pre t d =>
+    match resolveDef s.cur d with
+    | none => none
+    | some _ => match defScope d (effScope s.globalDefs pre) with | .glob => some (.cmd t) | .loc => none
+  | _ => none
+
+/-- All targets assigned globally while `ops` run from `s`. -/
+def globals : Spec → List Op → List Target
+  | _, [] => []
+  | s, op :: ops =>
+    match globalTarget s op with
+    | none => globals (s.step op).1 ops
+    | some t => t :: globals (s.step op).1 ops
+
+end Spec
+
 end C01
